@@ -316,12 +316,27 @@ def repeatIter (o : Out) (ext : List Ev) : Nat → List Ev → Res
     | .brk => (.normal, tr ++ ext)
     | o => (o, tr ++ ext)
 
+/-- how many iterations run when each ends with `o`, and how the loop ends then (closed form of `repeatIter`,
+`Proofs.Exc.repeatIter_closed`) -/
+def iterCount (o : Out) (k : Nat) : Nat :=
+  match o with
+  | .normal => k
+  | .cont => k
+  | _ => min k 1
+
+def loopOutcome (o : Out) (k : Nat) : Out :=
+  if k = 0 then .normal else
+    match o with
+    | .normal => .normal
+    | .cont => .normal
+    | .brk => .normal
+    | o => o
+
 /-- a program whose top level is one loop `for (…k times…) { body }`, evaluated by running the body once from the
-empty trace and repeating what it did -/
+empty trace and repeating what it did (linear in `k`; `run` threads the growing trace through every statement) -/
 def runLoop (G : Graph) (cfg : Cfg) (fns : List Block) (body : Block) (k depth : Nat) : Final × List Ev :=
   let r := execB G cfg none (actAt G cfg fns depth) body []
-  let q := repeatIter r.1 r.2 k []
-  (final q.1, q.2)
+  (final (loopOutcome r.1 k), (List.replicate (iterCount r.1 k) r.2).flatten)
 
 /-! ### the value bound to the catch variable
 
